@@ -184,7 +184,10 @@ def c11(tier, seed, work):
     if tier == "quick":
         fams = [dict(name="c11-sess", insess=True, cmds=pairs[seed % 3], maxcalls=2, maxatt=2, kinds="KindsDesync", auth=a, integ=i, codes="CodesOkBusy"),
                 dict(name="c11-nosess", insess=False, cmds=pairs[(seed + 1) % 3], maxcalls=2, maxatt=2, kinds="KindsDesync", auth=1, integ=1, codes="CodesOkBusy"),
-                dict(name="c11-third", insess=(seed % 2 == 0), cmds=pairs[(seed + 2) % 3], maxcalls=2, maxatt=2, kinds="KindsDesync", auth=a, integ=i, codes="CodesOkBusy")]
+                dict(name="c11-third", insess=(seed % 2 == 0), cmds=pairs[(seed + 2) % 3], maxcalls=2, maxatt=2, kinds="KindsDesync", auth=a, integ=i, codes="CodesOkBusy"),
+                # a command whose response has no body: only the message header ties the reply to the request
+                dict(name="c11-nobody", insess=True, cmds="CmdsAC", maxcalls=2, maxatt=2, kinds="KindsDesync", auth=a, integ=i, codes="CodesOkBusy"),
+                dict(name="c11-nobody-n", insess=False, cmds="CmdsCR", maxcalls=2, maxatt=2, kinds="KindsDesync", auth=1, integ=1, codes="CodesOkBusy")]
         mc = [("MCConsole", "MC_Console_sess_quick.cfg"), ("MCConsole", "MC_Console_nosess_quick.cfg")]
     else:
         fams = [dict(name="c11-sess", insess=True, cmds="CmdsABR", maxcalls=2, maxatt=2, kinds="KindsDesync", auth=a, integ=i),
@@ -192,7 +195,9 @@ def c11(tier, seed, work):
                 dict(name="c11-sess3", insess=True, cmds="CmdsAB", maxcalls=2, maxatt=3, kinds="KindsDesync", auth=a, integ=i, codes="CodesOkBusy"),
                 dict(name="c11-nosess3", insess=False, cmds="CmdsAR", maxcalls=3, maxatt=2, kinds="KindsDesync", auth=a, integ=i, codes="CodesOkBusy"),
                 dict(name="c11-group-s", insess=True, cmds="CmdsAGH", maxcalls=2, maxatt=2, kinds="KindsDesync", auth=a, integ=i),
-                dict(name="c11-group-n", insess=False, cmds="CmdsAGH", maxcalls=2, maxatt=2, kinds="KindsDesync", auth=1, integ=1)]
+                dict(name="c11-group-n", insess=False, cmds="CmdsAGH", maxcalls=2, maxatt=2, kinds="KindsDesync", auth=1, integ=1),
+                dict(name="c11-nobody", insess=True, cmds="CmdsAC", maxcalls=2, maxatt=3, kinds="KindsDesync", auth=a, integ=i),
+                dict(name="c11-nobody-n", insess=False, cmds="CmdsCR", maxcalls=2, maxatt=3, kinds="KindsDesync", auth=1, integ=1)]
         mc = [("MCConsole", "MC_Console_sess.cfg"), ("MCConsole", "MC_Console_nosess.cfg")]
     return console_check("C11", tier, seed, work, mc, fams, COMMON_ASSUME)
 
@@ -526,9 +531,35 @@ def add_walk(res, work, fam_specs, note):
     return res
 
 
+def add_console(res, work, fam_specs, note):
+    """Merge exhaustive console outcome families (TraceConsole) into a vector check's result."""
+    with cf.ThreadPoolExecutor(max_workers=3) as ex:
+        fams = list(ex.map(lambda fs: F.console_family(work, **fs), fam_specs))
+    require_accepted(fams)
+    extra = []
+    for f in fams:
+        extra += flatten(f)
+    attach_scripts(extra)
+    res["viols"] += extra
+    cov = res["coverage"]
+    n = sum(f["scripts"] for f in fams)
+    cov["evaluations"] += n
+    cov["distinct_nontrivial"] += n
+    cov["families"] += fam_cov(fams)
+    cov["traces_validated_against_impl"] = cov.get("traces_validated_against_impl", 0) + n
+    cov["rule"] += " " + note
+    return res
+
+
 def c06(tier, seed, work):
     W = dict(module="MCGenWireVec")
     res = c06_vec(tier, seed, work)
+    a, i = suite_for(seed, 2)
+    d = 2 if tier == "quick" else 3
+    res = add_console(res, work, [dict(name="c06-retry-n", insess=False, cmds="CmdsAR", maxcalls=2, maxatt=d, kinds="KindsRetryNS", auth=1, integ=1, codes="CodesAll"),
+                                  dict(name="c06-retry-s", insess=True, cmds="CmdsAGH", maxcalls=2, maxatt=d, kinds="KindsRetry", auth=a, integ=i)],
+                      "Retransmissions: every outcome sequence of Console.tla (busy, timeout code, garbage, bad signature, lost) in and out of a "
+                      "session; every datagram transmitted, first or repeated, must parse as the caller's command.")
     return add_walk(res, work, [dict(name="c06-sensor", module="MCGenSensor", cfg_tpl="Gen_Cipher.cfg.tpl", family="sweep", tier=tier, seed=seed),
                                 dict(name="c06-api", module="MCGenApi", cfg_tpl="Gen_Cipher.cfg.tpl", family="api", tier=tier, seed=seed)],
                     "In-session request encodings: Get Sensor Reading to every owner LUN (responses come back from that LUN) followed by "
@@ -653,8 +684,22 @@ def c13(tier, seed, work):
         viols = [x for x in flatten(runs[-1]) if (x["prop"], x["pred"], x["where"]["script_index"]) in keep]
         attach_scripts(viols)
     last = runs[-1]
+    # "no call reports success without having received a valid response": every outcome sequence of Console.tla, including
+    # commands whose response has no body (nothing but a received datagram distinguishes success from silence)
+    a, i = suite_for(seed, 4)
+    d = 2 if tier == "quick" else 3
+    cons = [F.console_family(work, "c13-nobody-s", True, "CmdsAC", 2, d, "KindsRetry", a, i),
+            F.console_family(work, "c13-nobody-n", False, "CmdsCR", 2, d, "KindsRetryNS", 1, 1)]
+    require_accepted(cons)
+    cv = []
+    for f in cons:
+        cv += flatten(f)
+    attach_scripts(cv)
+    viols += cv
+    runs_cov = fam_cov(cons)
     cov = {"states": sum(m["distinct"] for m in mcs), "transitions": sum(m["generated"] for m in mcs), "model_checking": mcs,
-           "model_mutants_killed": killed, "traces_validated_against_impl": last["scripts"], "events_validated": last["events"],
+           "model_mutants_killed": killed, "traces_validated_against_impl": last["scripts"] + sum(f["scripts"] for f in cons),
+           "events_validated": last["events"] + sum(f["events"] for f in cons), "console_families": runs_cov,
            "evaluations": sum(r["scripts"] for r in runs), "distinct_nontrivial": last["scripts"], "runs": len(runs),
            "rule": "Timing.tla (integer clock; per-attempt timeout nested in the context; back-off bounded by the context) checked "
                    "exhaustively for deadline/timeout ratios <1, 1, >1, in and out of a session, with both nesting guards as mutants. "
